@@ -32,7 +32,9 @@ type schema struct {
 	Bits   int
 	Elem   *schema
 	Fields []schema
-	Why    string // for opaque: what it is
+	Why    string   // for opaque: what it is
+	Post   string   // for post: the Coq term of the hand-written post-processing (C04.Model.post)
+	Lens   [][2]int // for post PLens: (field index, required byte length)
 }
 
 func (s schema) Coq() string {
@@ -71,6 +73,12 @@ func (s schema) Coq() string {
 		return fmt.Sprintf("(SMapU %v %d %s)", s.K == "mapui", s.Bits, s.Elem.Coq())
 	case "peer":
 		return "SPeer"
+	case "post":
+		return "(SPost " + s.Post + " " + s.Elem.Coq() + ")"
+	case "bylen":
+		return fmt.Sprintf("(SByLen %d %s %s)", s.Bits, s.Fields[0].Coq(), s.Fields[1].Coq())
+	case "alt":
+		return "(SAlt " + s.Fields[0].Coq() + " " + s.Fields[1].Coq() + ")"
 	}
 	return "SOpaque"
 }
@@ -202,7 +210,85 @@ func init() {
 		"blockfetch.MsgBlock":           func(t reflect.Type) schema { return patch(t, structSchema(t), "WrappedBlock", toTagBytes) },
 		"leiosfetch.MsgBlockTxsRequest": func(t reflect.Type) schema { return patch(t, structSchema(t), "Bitmaps", toMapI) },
 		"peersharing.PeerAddress":       func(t reflect.Type) schema { return schema{K: "peer"} },
+		// ---- third round: hand-written codecs as SPost / SByLen over the reflected layout ----
+		"common.Blake2b256": func(t reflect.Type) schema { return schema{K: "bytesn", Bits: t.Len()} }, // MarshalCBOR only: a full-size byte string
+		"common.LeiosVote": func(t reflect.Type) schema {
+			return layout(t, "(SStruct [(SUInt 64); (SBytesN 32); (SUInt 64); SBytes])", func(b schema) schema { return lens(b, [][2]int{{3, 48}}) })
+		},
+		"common.LeiosPrototypeVote": func(t reflect.Type) schema {
+			return layout(t, "(SStruct [(SBytesN 32); (SUInt 64); SBytes])", func(b schema) schema { return lens(b, [][2]int{{2, 48}}) })
+		},
+		"chainsync.WrappedHeader": func(t reflect.Type) schema {
+			return layout(t, "(SStruct [(SUInt 64); SRaw])", func(b schema) schema { return schema{K: "post", Post: "PWHeader", Elem: &b} })
+		},
+		"chainsync.MsgRollForwardNtC": func(t reflect.Type) schema {
+			return layout(t, "(SStruct [(SUInt 8); STagAny; (SStruct [SPoint; (SUInt 64)])])", func(b schema) schema { return schema{K: "post", Post: "PNtC", Elem: &b} })
+		},
+		"localtxmonitor.MsgReplyNextTx": func(t reflect.Type) schema {
+			return layout(t, "(SStruct [(SUInt 8); (SStruct [(SUInt 8); SBytes])])", func(schema) schema { return schema{K: "post", Post: "PReplyNextTx", Elem: &schema{K: "raw"}} })
+		},
+		"common.RejectReasonData": func(t reflect.Type) schema {
+			return layout(t, "(SStruct [(SUInt 8); SText])", func(schema) schema { return schema{K: "post", Post: "PRejectReason", Elem: &schema{K: "raw"}} })
+		},
+		// DMQ: two wire shapes tried in turn (SAlt), folded into one struct (SPost)
+		"common.DmqMessagePayload": func(t reflect.Type) schema {
+			return layout(t, "(SStruct [SBytes; (SUInt 64); (SUInt 32)])", func(b schema) schema {
+				legacy := schema{K: "struct", Fields: append([]schema{{K: "bytes"}}, b.Fields...)}
+				return schema{K: "post", Post: "PDmqPayload", Elem: &schema{K: "alt", Fields: []schema{b, legacy}}}
+			})
+		},
+		"common.DmqMessage": func(t reflect.Type) schema {
+			b := structSchema(t) // MessageID, Payload (hand codec), KESSignature, OperationalCertificate, ColdVerificationKey
+			if len(b.Fields) != 5 || b.Fields[0].K != "bytes" || b.Fields[1].Post != "PDmqPayload" || b.Fields[2].K != "bytes" || b.Fields[3].K != "struct" || b.Fields[4].K != "bytes" {
+				return schema{K: "opaque", Why: "layout of " + t.String() + " changed: " + b.Coq()}
+			}
+			legacy := schema{K: "struct", Fields: append([]schema{}, b.Fields[1:]...)}
+			return schema{K: "post", Post: "PDmq", Elem: &schema{K: "alt", Fields: []schema{b, legacy}}}
+		},
+		// MarshalCBOR only (value receiver): decoded by reflection, encoded as [type, messages]
+		"messagesubmission.MsgReplyMessages": func(t reflect.Type) schema { return structSchema(t) },
+		"leiosfetch.MsgBlockTxs": func(t reflect.Type) schema {
+			return layout(t, "(SStruct [(SUInt 8); SPoint; (SMapU false 16 (SUInt 64)); (SList SRaw)])", func(b schema) schema {
+				full := schema{K: "struct", Fields: append([]schema{}, b.Fields...)}
+				full.Fields[2] = toMapI(full.Fields[2])
+				short := schema{K: "struct", Fields: []schema{b.Fields[0], b.Fields[3]}}
+				return schema{K: "bylen", Bits: 2, Fields: []schema{short, full}}
+			})
+		},
+		"leiosnotify.MsgVotesOffer": func(t reflect.Type) schema {
+			return layout(t, "(SStruct [(SUInt 8); (SList (SStruct [(SUInt 64); (SUInt 64)])); (SList "+voteCoq+"); (SList (SPost (PLens [(2%nat, 48)]) (SStruct [(SBytesN 32); (SUInt 64); SBytes])))])", func(b schema) schema {
+				id, vote := *b.Fields[1].Elem, *b.Fields[2].Elem
+				proto := lens(schema{K: "struct", Fields: []schema{{K: "bytes"}, {K: "uint", Bits: 64}, {K: "bytes"}}}, [][2]int{{0, 32}, {2, 48}})
+				inner := schema{K: "bylen", Bits: 4, Fields: []schema{vote, proto}}
+				elem := schema{K: "bylen", Bits: 2, Fields: []schema{id, inner}}
+				env := schema{K: "struct", Fields: []schema{b.Fields[0], {K: "list", Elem: &elem}}}
+				return schema{K: "post", Post: "PPartition", Elem: &env}
+			})
+		},
 	}
+}
+
+const voteCoq = "(SPost (PLens [(3%nat, 48)]) (SStruct [(SUInt 64); (SBytesN 32); (SUInt 64); SBytes]))"
+
+// lens: a struct whose byte fields have fixed lengths checked by a Validate()
+func lens(b schema, ls [][2]int) schema {
+	var xs []string
+	for _, l := range ls {
+		xs = append(xs, fmt.Sprintf("(%d%%nat, %d)", l[0], l[1]))
+	}
+	return schema{K: "post", Post: "(PLens [" + strings.Join(xs, "; ") + "])", Elem: &b, Lens: ls}
+}
+
+// layout: the hand model of a type with a hand-written codec is only valid for
+// the field layout it was written for; the reflected layout (field order,
+// kinds, widths) is compared with the expected one and a change makes the
+// type opaque again (the translator then reports it as not modelled)
+func layout(t reflect.Type, want string, mk func(base schema) schema) schema {
+	b := structSchema(t)
+	if got := b.Coq(); got != want {
+		return schema{K: "opaque", Why: "layout of " + t.String() + " changed: " + got}
+	}
+	return mk(b)
 }
 
 func structSchema(t reflect.Type) schema {
